@@ -45,9 +45,9 @@ type Program struct {
 	ModFns  map[*ssa.Function]bool
 	SSAS    float64
 
-	cgOnce sync.Once
-	CG     *callgraph.Graph
-	CGS    float64
+	cgOnce  sync.Once
+	CG      *callgraph.Graph
+	CGS     float64
 	CGEdges int
 
 	declOnce sync.Once
